@@ -443,7 +443,7 @@ func (c *Ctx) constOf(pkgrel, name string) (constant.Value, token.Pos, bool) {
 	return k.Val(), k.Pos(), true
 }
 
-// astFuncDecl finds a function/method declaration by name: "NewScale", "Degree.Semitone", "(*Opt).Update" (receiver base type name only).
+// astFuncDecl finds a function/method declaration by name: "NewScale", "Degree.Semitone", "Opt.Update" (receiver base type name only).
 func (c *Ctx) astFunc(pkgrel, name string) (*ast.FuncDecl, *packages.Package) {
 	p := c.pkg(pkgrel)
 	if p == nil {
